@@ -9,7 +9,7 @@ CHUNK = 30
 
 
 def describe(tier):
-    n = 6 if tier == 'quick' else 9
+    n = 7 if tier == 'quick' else 9
     return {
         'rule': 'case = (scheme, configuration point with identifier size >= 8, every partition of every N<=%d in both orders, content '
                 'variant in {all identifiers distinct, ONE identifier repeated under every keyword}); keywords are 6 and identifiers 8/16 '
@@ -42,7 +42,7 @@ def grid(name, tier):
 
 
 def case_list(name, label, cfg, tier):
-    n = 6 if tier == 'quick' else 9
+    n = 7 if tier == 'quick' else 9
     cases = []
     for p in domains.profiles(n):
         cases.append((p, 6, 'disjoint'))
